@@ -144,7 +144,9 @@ def main(argv=None):
             traceback.print_exc()
             again = None
         if not again:
-            print("HARNESS-ERROR property=%s: violation of class %r did not reproduce on replay: %r"
+            # e.g. a violation that depends on what the exploring process had executed before; it is reported, but
+            # never as a VIOLATION line, and it only decides the exit status if nothing else could be confirmed
+            print("UNCONFIRMED property=%s: a violation of class %r did not reproduce on replay: %r"
                   % (prop, klass, case.get("explanation")))
             harness_error = True
             continue
@@ -174,9 +176,12 @@ def main(argv=None):
     print("%s %s: states=%s transitions=%s validated=%s nontrivial=%s exhaustive=%s wall=%.1fs violations=%d"
           % (prop, args.tier, cov.get("states"), cov.get("transitions"), cov.get("traces_validated_against_impl"),
              cov.get("distinct_nontrivial"), cov.get("exhaustive"), time.time() - t0, len(violations)))
+    if printed:
+        return 1
     if harness_error:
+        print("HARNESS-ERROR property=%s: violations were found but none could be confirmed by replay" % prop)
         return 2
-    return 1 if printed else 0
+    return 0
 
 
 if __name__ == "__main__":
